@@ -312,6 +312,7 @@ class AsyncClientDriver(NetBase):
         import engineio, aiohttp
         self._init()
         self.lp = rt.VLoop()
+        self.lp.set_exception_handler(lambda loop, context: None)     # handlers that raise are part of the histories
         self.lp.vnow = 0.0
         self.lp.limit = 0.0
         self._keep = []
@@ -518,6 +519,10 @@ class AsyncClientDriver(NetBase):
         return [(t.get_name(), 'pending') for t in asyncio.all_tasks(self.lp) if not t.done()]
 
     def close(self):
+        try:
+            self.c.http.closed = True      # keeps AsyncClient.__del__ quiet
+        except Exception:
+            pass
         try:
             for t in asyncio.all_tasks(self.lp):
                 t.cancel()
